@@ -2,6 +2,8 @@ package props
 
 import (
 	"fmt"
+	"os"
+	"path/filepath"
 	"sort"
 	"testing"
 	"time"
@@ -9,6 +11,7 @@ import (
 	"github.com/wokdav/gopki/generator/cert"
 	"github.com/wokdav/gopki/generator/config"
 	"github.com/wokdav/gopki/generator/db"
+	"github.com/wokdav/gopki/generator/db/filesystem"
 	"pgregory.net/rapid"
 
 	"verif/harness/core"
@@ -64,9 +67,10 @@ type entState struct {
 	Art     int // 0 absent, 1 cert+key, 2 cert+CSR, 3 key only, 4 cert only
 	Hash    int // 0 none stored, 1 equal, 2 different
 	CfgNew  bool
-	Expiry  int // 0 valid, 1 expired & config unexpired, 2 expired & config expired
-	Issuer  int // index of the issuer entity, -1 = root
-	ArtTime int // artifact time class: 0 older, 1 middle, 2 newer (compared between entities)
+	CfgSame bool `json:",omitempty"` // config and artifact carry the same timestamp (not newer)
+	Expiry  int  // 0 valid, 1 expired & config unexpired, 2 expired & config expired, 3 expired & config ends later than the certificate but still in the past
+	Issuer  int  // index of the issuer entity, -1 = root
+	ArtTime int  // artifact time class: 0 older, 1 middle, 2 newer (compared between entities)
 }
 
 type c11Case struct {
@@ -121,7 +125,7 @@ func c11Oracle(c c11Case) []int {
 		if c.Strat&core.FlagNewer != 0 {
 			if e.Art == 0 {
 				set(dUnspec) // no artifact file: "config newer than its artifact" is not defined
-			} else if e.CfgNew {
+			} else if e.CfgNew && !e.CfgSame {
 				set(dYes)
 			}
 		}
@@ -169,6 +173,9 @@ func buildSynDB(c c11Case) (*synDB, []string) {
 		case 2:
 			notAfter = now.Add(-1000 * time.Hour)
 			cfg.Validity.Until = now.Add(-1000 * time.Hour)
+		case 3:
+			notAfter = now.Add(-2000 * time.Hour)
+			cfg.Validity.Until = now.Add(-1000 * time.Hour)
 		}
 		e := &synEntity{cfg: cfg}
 		if hasCert(st.Art) {
@@ -187,6 +194,9 @@ func buildSynDB(c c11Case) (*synDB, []string) {
 			e.meta.LastConfigUpdate = e.meta.LastBuild.Add(-10 * time.Minute)
 			if st.CfgNew {
 				e.meta.LastConfigUpdate = e.meta.LastBuild.Add(10 * time.Minute)
+			}
+			if st.CfgSame {
+				e.meta.LastConfigUpdate = e.meta.LastBuild
 			}
 		} else {
 			e.meta.LastConfigUpdate = base
@@ -265,7 +275,7 @@ func checkC11(c c11Case) *core.Failure {
 func TestC11(t *testing.T) {
 	r := core.Start(t, "C11")
 	defer r.Finish()
-	r.Rule = "(a) exhaustive decision table on a synthetic db.Database: singletons and every issuer/subject pair over artifact state {absent, cert+key, cert+CSR, key only, cert only} x stored hash {none, equal, different} x config newer/older than artifact x expiry {valid, expired with unexpired config, expired with expired config} per entity x issuer artifact {older, equal, newer} than the subject's x all 32 strategy values (quick: a 1/8 slice chosen by index stride; thorough: all). (b) random forests of up to 5 entities in up to 4 tiers over the same state space (propagation, ordering). (c) the same states materialised as real artifact files and mtimes and planned through the filesystem database. Oracle: the decision function written from the statement, three-valued (unspecified only where an artifact time is compared with an absent artifact). Non-trivial = plan in which at least one entity is regenerated and at least one is not; distinct by the full state."
+	r.Rule = "(a) exhaustive decision table on a synthetic db.Database: singletons and every issuer/subject pair over artifact state {absent, cert+key, cert+CSR, key only, cert only} x stored hash {none, equal, different} x config newer/older than artifact x expiry {valid, expired with unexpired config, expired with expired config, expired with a config that ends later than the certificate but still in the past} per entity (plus config and artifact with the same timestamp) x issuer artifact {older, equal, newer} than the subject's x all 32 strategy values (quick: a 1/8 slice chosen by index stride; thorough: all). (b) random forests of up to 5 entities in up to 4 tiers over the same state space (propagation, ordering). (c) the same states materialised as real artifact files and mtimes and planned through the filesystem database; (d) a native directory whose config is a symbolic link to a file elsewhere, target modified before/after the artifact, six flag sets. Oracle: the decision function written from the statement, three-valued (unspecified only where an artifact time is compared with an absent artifact). Non-trivial = plan in which at least one entity is regenerated and at least one is not; distinct by the full state."
 	r.Assumptions = []string{"when an entity has no artifact file at all, reasons that compare its artifact time (issuer newer, config newer) are unspecified"}
 	wrap := func(c c11Case) *core.Failure {
 		want := c11Oracle(c)
@@ -289,6 +299,11 @@ func TestC11(t *testing.T) {
 		return checkC11(c)
 	}
 	real := func(c c11Case) *core.Failure { return checkC11Real(r, c) }
+	link := func(c c11Link) *core.Failure {
+		r.Case(fmt.Sprintf("symlink %+v", c), "symlinked-config")
+		return checkC11Symlink(c)
+	}
+	core.Register(r, "symlink", link)
 	core.Register(r, "table", wrap)
 	core.Register(r, "files", real)
 	if r.Replays() {
@@ -298,8 +313,11 @@ func TestC11(t *testing.T) {
 	for art := 0; art < 5; art++ {
 		for hash := 0; hash < 3; hash++ {
 			for _, cn := range []bool{false, true} {
-				for exp := 0; exp < 3; exp++ {
+				for exp := 0; exp < 4; exp++ {
 					states = append(states, entState{Art: art, Hash: hash, CfgNew: cn, Expiry: exp, Issuer: -1, ArtTime: 1})
+				}
+				if cn {
+					states = append(states, entState{Art: art, Hash: hash, CfgNew: true, CfgSame: true, Expiry: 0, Issuer: -1, ArtTime: 1})
 				}
 			}
 		}
@@ -351,6 +369,16 @@ func TestC11(t *testing.T) {
 			}
 		}
 	}
+	if r.Shard == 0 {
+		for _, fl := range []int{core.FlagNewer, core.FlagNewer | core.FlagMissing, core.FlagDefault, core.FlagDefault | core.FlagNewer, core.FlagExpired, core.FlagAll} {
+			for _, child := range []bool{false, true} {
+				for _, newer := range []bool{false, true} {
+					c := c11Link{fl, child, newer}
+					r.Report("symlink", c, link(c))
+				}
+			}
+		}
+	}
 	genForestStates := func(t *rapid.T) c11Case {
 		n := rapid.IntRange(2, 5).Draw(t, "n")
 		c := c11Case{Strat: rapid.IntRange(0, 31).Draw(t, "strat")}
@@ -398,6 +426,9 @@ func checkC11Real(r *core.Runner, c c11Case) *core.Failure {
 		default:
 			e.Validity = &core.Validity{From: "2020-01-02", Until: "2021-03-04"}
 		}
+		if st.Expiry == 3 && st.Hash == 1 {
+			return nil // the stored hash cannot equal a configuration whose end date differs from the certificate's
+		}
 		w.Ents = append(w.Ents, e)
 	}
 	d := w.Dir()
@@ -415,6 +446,10 @@ func checkC11Real(r *core.Runner, c c11Case) *core.Failure {
 		if st.Expiry == 1 {
 			// certificate expired, configuration now yields an unexpired one
 			e.Validity = &core.Validity{From: "2020-01-02", Until: "2090-03-04"}
+		}
+		if st.Expiry == 3 {
+			// configuration ends later than the certificate, but still in the past
+			e.Validity = &core.Validity{From: "2020-01-02", Until: "2023-05-06"}
 		}
 		var buf []byte
 		switch st.Hash {
@@ -451,6 +486,9 @@ func checkC11Real(r *core.Runner, c c11Case) *core.Failure {
 		cfgTime := base + int64(100+50*st.ArtTime) - 10
 		if st.CfgNew {
 			cfgTime += 20
+		}
+		if st.CfgSame {
+			cfgTime = base + int64(100+50*st.ArtTime)
 		}
 		d.Files[e.File] = &core.FileRec{Data: e.Render(), MTime: cfgTime}
 	}
@@ -500,6 +538,66 @@ func checkC11Real(r *core.Runner, c c11Case) *core.Failure {
 		key = fmt.Sprintf("files %+v", c)
 	}
 	r.Case(key, "real-files")
+	return nil
+}
+
+// c11Symlink: the entity's config file in the certificate folder is a symbolic link to a file kept
+// elsewhere (native filesystem only). "Its config file is newer than its artifact" refers to the
+// configuration that is read, i.e. the link's target.
+type c11Link struct {
+	Flags     int
+	WithChild bool
+	Newer     bool // the target is modified after the artifact was written
+}
+
+func checkC11Symlink(c c11Link) *core.Failure {
+	root, err := os.MkdirTemp("", "gopki-link-")
+	if err != nil {
+		return nil
+	}
+	defer os.RemoveAll(root)
+	pki, store := filepath.Join(root, "pki"), filepath.Join(root, "store")
+	os.MkdirAll(pki, 0755)
+	os.MkdirAll(store, 0755)
+	os.WriteFile(filepath.Join(store, "ca.yaml"), []byte("version: 1\nsubject: CN=Linked CA\n"), 0644)
+	if err := os.Symlink(filepath.Join("..", "store", "ca.yaml"), filepath.Join(pki, "ca.yaml")); err != nil {
+		return nil // no symlink support: nothing to check
+	}
+	if c.WithChild {
+		os.WriteFile(filepath.Join(pki, "leaf.yaml"), []byte("version: 1\nsubject: CN=Leaf\nissuer: ca\n"), 0644)
+	}
+	past := time.Now().Add(-48 * time.Hour)
+	os.Chtimes(filepath.Join(store, "ca.yaml"), past, past)
+	if c.WithChild {
+		os.Chtimes(filepath.Join(pki, "leaf.yaml"), past, past)
+	}
+	if res := core.RunFS(filesystem.NewNativeFs(pki), core.FlagDefault); !res.OK() {
+		return core.Failf("C11/symlink-setup-failed", "%s", res.String())
+	}
+	// artifacts one day old, link older still; the target is edited (or not) afterwards
+	art := time.Now().Add(-24 * time.Hour)
+	for _, n := range []string{"ca.pem", "leaf.pem"} {
+		os.Chtimes(filepath.Join(pki, n), art, art)
+	}
+	if c.Newer {
+		now := time.Now().Add(-time.Hour)
+		os.Chtimes(filepath.Join(store, "ca.yaml"), now, now)
+	}
+	res := core.RunFS(filesystem.NewNativeFs(pki), c.Flags)
+	if res.Panic != "" {
+		return core.Failf("C11/panic", "gopki panicked: %s", res.Panic)
+	}
+	planned := map[string]bool{}
+	for _, ch := range res.Changes {
+		planned[ch.Alias] = true
+	}
+	want := c.Newer && c.Flags&core.FlagNewer != 0 || c.Flags&core.FlagAll != 0
+	if planned["ca"] != want {
+		return core.Failf("C11/symlinked-config", "config is a symlink, target modified after the artifact=%v, flags=%05b: ca planned=%v, expected %v (%s)", c.Newer, c.Flags, planned["ca"], want, res.String())
+	}
+	if c.WithChild && planned["leaf"] != want {
+		return core.Failf("C11/symlinked-config", "leaf under a symlinked ca: planned=%v, expected %v", planned["leaf"], want)
+	}
 	return nil
 }
 
